@@ -67,7 +67,9 @@ def states(draw, n_markets=(1, 3), index=False, max_steps=30, with_quotes=True, 
                            draw(st.integers(0, 5)) == 0])  # (last: a MARKET order left resting, as in a session without execution)
     idx2 = None
     if index and second_index and draw(st.booleans()):
-        idx2 = {"p0": draw(st.sampled_from([90.0, 200.0, 310.0])), "trade": [draw(st.one_of(st.none(), st.floats(0.9, 1.1))) for _ in range(T + 1)]}
+        idx2 = {"p0": draw(st.sampled_from([90.0, 200.0, 310.0])), "trade": [draw(st.one_of(st.none(), st.floats(0.9, 1.1))) for _ in range(T + 1)],
+                # an index of indices: the first index itself (a market with its own price and shares) and the last spot market
+                "nested": draw(st.booleans())}
     return {"n": n, "ticks": ticks, "p0": p0, "steps": steps, "quotes": quotes, "index": index, "index2": idx2,
             "index_p0": draw(st.sampled_from([100.0, 150.0, 300.0])) if index else None, "shares": draw(st.sampled_from([100, 2000])),
             "seed": draw(st.integers(0, 2**31 - 1)),
@@ -88,13 +90,14 @@ def build_state(state):
     idx = None
     if state["index"]:
         idx = IndexMarket(market_id=n, prng=random.Random(n), simulator=sim, name="IDX")
-        idx.setup({"tickSize": 1.0, "marketPrice": state["index_p0"], "markets": [m.name for m in markets]})
+        idx.setup({"tickSize": 1.0, "marketPrice": state["index_p0"], "markets": [m.name for m in markets], "outstandingShares": state["shares"]})
         sim._add_market(idx)
     idx2 = None
     if state.get("index2"):
         # a second index over the first two components
         idx2 = IndexMarket(market_id=n + 1, prng=random.Random(n + 1), simulator=sim, name="IDX2")
-        idx2.setup({"tickSize": 1.0, "marketPrice": state["index2"]["p0"], "markets": [m.name for m in markets[:2]]})
+        idx2.setup({"tickSize": 1.0, "marketPrice": state["index2"]["p0"],
+                    "markets": ["IDX", markets[-1].name] if state["index2"].get("nested") else [m.name for m in markets[:2]]})
         sim._add_market(idx2)
     allm = markets + ([idx] if idx is not None else []) + ([idx2] if idx2 is not None else [])
     for m in allm:
@@ -244,8 +247,13 @@ def fcn_cases(draw, tier):
     if draw(st.booleans()):
         # a group of agents built from ONE settings dict (what the runner does), with a randomised window
         lo = draw(st.integers(1, 30))
-        params["timeWindowSize"] = [lo, lo + draw(st.integers(1, 40))]
-    return {"state": draw(states(n_markets=(1, 2))), "params": params, "access": draw(st.sampled_from(["all", "first"])),
+        params["timeWindowSize"] = [lo, lo + draw(st.sampled_from([1, 1, 2, 5, 40]))]
+    with_index = draw(st.integers(0, 3)) == 0
+    return {"state": draw(states(n_markets=(2, 2), index=True)) if with_index else draw(states(n_markets=(1, 2))), "params": params,
+            "access": "all" if with_index else draw(st.sampled_from(["all", "first"])),
+            # (with an index market: a component's fundamental is shocked after the clock advance of the current step, so the index's
+            #  published fundamental -- recorded at the advance -- differs from a fresh average over the components)
+            "late_component_shock": draw(st.sampled_from([None, 1.1, 0.8])) if with_index else None,
             "agent_seed": draw(st.integers(0, 2**31 - 1)), "group_size": draw(st.sampled_from([1, 1, 2, 3])),
             "contrarian": draw(st.integers(0, 4)) == 0}
 
@@ -255,6 +263,12 @@ def fcn_check(case):
 
     sim, markets, idx, allm = build_state(case["state"])
     acc = [m.market_id for m in markets] if case["access"] == "all" else [markets[0].market_id]
+    if idx is not None:
+        acc.append(idx.market_id)
+        if case.get("late_component_shock"):
+            t_now = markets[0].get_time()
+            markets[0]._fundamental_prices[t_now] = markets[0]._fundamental_prices[t_now] * case["late_component_shock"]  # what Market.change_fundamental_price records
+        markets = markets + [idx]  # the FCN agent trades the index market like any other
     shared = copy.deepcopy(case["params"])  # one dict for the whole group, as SequentialRunner passes it
     group = []
     for g in range(case.get("group_size", 1)):
@@ -271,8 +285,9 @@ def fcn_check(case):
             raise Violation("C20.fcn_default_mean_reversion_time", f"agent {ag.name}: meanReversionTime is not configured, so it defaults to the agent's own "
                                                                    f"timeWindowSize {ag.time_window_size}, but it is {ag.mean_reversion_time}")
         tw = case["params"]["timeWindowSize"]
-        if isinstance(tw, list) and not (tw[0] <= ag.time_window_size <= tw[1]):
-            raise Violation("C20.fcn_window_support", f"timeWindowSize {ag.time_window_size} outside {tw}")
+        if isinstance(tw, list) and not (tw[0] <= ag.time_window_size < tw[1]):
+            # [a, b] draws a <= x < b; the window is its integer part
+            raise Violation("C20.fcn_window_support", f"timeWindowSize {ag.time_window_size} outside [{tw[0]}, {tw[1]})")
     if len(group) > 1:
         classes.add("group")
     a = group[-1]
@@ -445,7 +460,9 @@ def arb_check(case):
     settings = {"cashAmount": 1000, "assetVolume": 10, "orderVolume": case["volume"], "orderThresholdPrice": threshold}
     if case["ttl"] is not None:
         settings["orderTimeLength"] = case["ttl"]
-    acc = [m.market_id for m in markets] + ([idx.market_id] if case["index_access"] else []) + ([idx2.market_id] if idx2 is not None else [])
+    nested = bool((case["state"].get("index2") or {}).get("nested"))
+    # (an arbitrage agent can access every component of an index it trades: with a nested index that includes the inner index)
+    acc = [m.market_id for m in markets] + ([idx.market_id] if case["index_access"] or nested else []) + ([idx2.market_id] if idx2 is not None else [])
     _call(a.setup, settings=settings, accessible_markets_ids=acc)
     if case["stopped"] == "index":
         idx._is_running = False
@@ -465,7 +482,7 @@ def arb_check(case):
             return CaseInfo(skipped=True, classes=["index_value_off"])
         gap = ip - iv
         gaps.append(gap)
-        stopped = (case["stopped"] == "index" and ix is idx) or (case["stopped"] == "component" and markets[-1] in comps)
+        stopped = not ix.is_running or any(not c.is_running for c in comps)
         if not stopped and a.is_market_accessible(ix.market_id) and abs(gap) > threshold:
             buy_index = gap < 0
             expected.append((ix.market_id, buy_index, len(comps) * case["volume"], ip))
@@ -484,7 +501,7 @@ def arb_check(case):
         return CaseInfo(nontrivial=False, classes=["idle", "stopped" if case["stopped"] else "running"] + (["gap_equals_threshold"] if any(abs(g) == threshold for g in gaps) else []),
                         sample={"gaps": gaps, "threshold": threshold})
     n_act = sum(1 for e in expected if e[0] in [ix.market_id for ix in indexes])
-    classes = ["buy_index" if expected[0][1] else "sell_index"] + (["two_indexes_act"] if n_act == 2 else []) + (["two_indexes"] if len(indexes) == 2 else [])
+    classes = ["buy_index" if expected[0][1] else "sell_index"] + (["two_indexes_act"] if n_act == 2 else []) + (["two_indexes"] if len(indexes) == 2 else []) + (["nested_index"] if (case["state"].get("index2") or {}).get("nested") else [])
     return CaseInfo(nontrivial=True, classes=classes, sample={"gaps": gaps, "threshold": threshold, "orders": [list(g) for g in got]})
 
 
